@@ -74,10 +74,10 @@ type Type struct {
 	Proc bool `json:"proc,omitempty"`
 	// Zero: a field-less (zero-size) provider type: no handle, no custom name, one instance.
 	// Distinct zero-size components may share one address.
-	Zero   bool      `json:"zero,omitempty"`
+	Zero bool `json:"zero,omitempty"`
 	// Scalar (with Zero): the type is not a struct at all but a named scalar (`type T int32`);
 	// a pointer to it is as legal a component as a pointer to a struct.
-	Scalar bool `json:"scalar,omitempty"`
+	Scalar bool      `json:"scalar,omitempty"`
 	Points []*Point  `json:"points,omitempty"`
 	Frame  []*Frame  `json:"frame,omitempty"`
 	Config []*Conf   `json:"config,omitempty"`
@@ -164,12 +164,14 @@ type Frame struct {
 type Conf struct {
 	Field string `json:"field"`
 	// Menu: "value" value:"${k}", "valueDef" value:"${k:def}", "prop" prop:"k",
-	// "sum" value:"#{${k1}+${k2}}", "mul" value:"#{${k1}*${k2}}", "prefixInt" prefix:"k" on int,
+	// "sum" value:"#{${k1}+${k2}}", "mul" value:"#{${k1}*${k2}}", "sumDef" value:"#{${k1:d}+${k2}}",
+	// "sumDef2" value:"#{${k1:d1}+${k2:d2}}", "prefixInt" prefix:"k" on int,
 	// "prefixStruct" prefix:"k" on a struct{A int; B string}, "literal" value:"<lit>"
 	Menu     string   `json:"menu"`
 	Keys     []string `json:"keys,omitempty"`
 	Default  string   `json:"default,omitempty"`
-	GoType   string   `json:"goType"` // "int" | "string" | "struct"
+	Default2 string   `json:"default2,omitempty"` // default of the second placeholder (menu "sumDef2")
+	GoType   string   `json:"goType"`             // "int" | "string" | "struct"
 	Validate string   `json:"validate,omitempty"`
 	Optional bool     `json:"optional,omitempty"`
 	Embed    []string `json:"embed,omitempty"`
@@ -190,7 +192,7 @@ type Instance struct {
 	// AfterPropertiesSet) has run - a component that works out its order while it initialises.
 	// Order is what it answers from then on, i.e. whenever the container sequences it.
 	OrderRaw *int   `json:"orderRaw,omitempty"`
-	Kind  string `json:"kindv,omitempty"`
+	Kind     string `json:"kindv,omitempty"`
 	// InitLookups: instance ids this instance looks up by name (App.GetComponentByName) from
 	// inside its Init / AfterPropertiesSet callback - a dependency cycle can be closed during
 	// initialization, not only during population.
@@ -224,11 +226,14 @@ type Instance struct {
 
 // Proc is a user post-processor instance (one of nine static harness types).
 type Proc struct {
-	ID         string  `json:"id"`
-	Class      string  `json:"class"`                // "plain" | "inst" | "smart"
-	OrderClass string  `json:"orderClass,omitempty"` // "", "ordered", "priority"
-	Order      int     `json:"order,omitempty"`
-	Rules      []*Rule `json:"rules,omitempty"`
+	ID         string `json:"id"`
+	Class      string `json:"class"`                // "plain" | "inst" | "smart"
+	OrderClass string `json:"orderClass,omitempty"` // "", "ordered", "priority"
+	Order      int    `json:"order,omitempty"`
+	// OrderRaw: what Order() answers until the processor's PostProcessComponentFactory hook has
+	// run (a processor that settles its order there, e.g. from the configuration).
+	OrderRaw *int    `json:"orderRaw,omitempty"`
+	Rules    []*Rule `json:"rules,omitempty"`
 	// Props: PostProcessAfterInstantiation returns true (so PostProcessProperties is called).
 	Props bool `json:"props,omitempty"`
 	// Lazy: the processor itself is marked LazyInit (like the container's own processors).
